@@ -85,12 +85,18 @@ def run(chk):
             chk.decide(ok, "exponent-conserves-sum-rule", qn,
                        f"the exponent of an iteration step is not a combination of the conserving anomalous dimensions only: "
                        f"(1,..,1).ln != 0 ({inst})", where=f.where, instance=inst, data={"witness": info}, how="PE + PIT F_p")
-            want = kern.eye(dim)
-            for ln in log:
-                want = kern.mat_mul(kern.expm_ref(ln), want)
-            ok, info = dag.is_zero_fp(kern.mat_sub(K, want).flat(), chk.seed, 2)
-            chk.decide(ok, "kernel-is-ordered-product-of-step-exponentials", qn,
-                       f"QED iterated kernel is not exp(ln_last)...exp(ln_first) ({inst})", where=f.where, instance=inst,
+            # conservation needs the kernel to be a product of the (conserving) step exponentials - in whichever order: the ORDER
+            # is C12's / C14's subject, a reversed product still conserves
+            ok, info = False, {}
+            for order in (log, list(reversed(log))):
+                want = kern.eye(dim)
+                for ln in order:
+                    want = kern.mat_mul(kern.expm_ref(ln), want)
+                ok, info = dag.is_zero_fp(kern.mat_sub(K, want).flat(), chk.seed, 2)
+                if ok:
+                    break
+            chk.decide(ok, "kernel-is-a-product-of-the-step-exponentials", qn,
+                       f"QED iterated kernel is not a product of its step exponentials, each of which conserves ({inst})", where=f.where, instance=inst,
                        data={"witness": info}, how="PE + PIT F_p")
     # ---- scale variations -------------------------------------------------------------------------
     fsv = src.func("eko.scale_variations.expanded.singlet_variation")
